@@ -258,6 +258,7 @@ def compare_sequence(ast, packages, texts, late=None):
                 use_registry = use_registry or new_ != comp.packages[p_][fn_]
                 comp.packages[p_][fn_] = new_
     results = []
+    late_dir = None
     try:
         main = comp.materialise()
         try:
@@ -320,7 +321,7 @@ def compare_sequence(ast, packages, texts, late=None):
                 fl.append(("accepted-but-rules-reject:%s" % ref.rule, repr(ref)))
             results.append((ref, fl))
     finally:
-        if late:
+        if late and late_dir:
             import sys
             if late_dir in sys.path:
                 sys.path.remove(late_dir)
